@@ -23,6 +23,8 @@ pub enum UCmd {
     Send(u64, u32),
     SetTimer(u8, u64, u64),
     CancelTimer(u8),
+    /// The handler blocks for this many milliseconds (a slow handler: timers become due meanwhile).
+    Sleep(u64),
 }
 
 /// A datagram: a unique tag plus commands the receiving actor executes.
@@ -40,6 +42,7 @@ fn ser(m: &UMsg) -> Result<Vec<u8>, String> {
             UCmd::Send(d, t) => format!("S{}/{}", d, t),
             UCmd::SetTimer(t, lo, hi) => format!("T{}/{}/{}", t, lo, hi),
             UCmd::CancelTimer(t) => format!("C{}", t),
+            UCmd::Sleep(ms) => format!("Z{}", ms),
         })
         .collect();
     Ok(format!("{}:{}", m.tag, cmds.join(",")).into_bytes())
@@ -58,6 +61,7 @@ fn de(bytes: &[u8]) -> Result<UMsg, String> {
             ("S", [d, t]) => UCmd::Send(*d, *t as u32),
             ("T", [t, lo, hi]) => UCmd::SetTimer(*t as u8, *lo, *hi),
             ("C", [t]) => UCmd::CancelTimer(*t as u8),
+            ("Z", [ms]) => UCmd::Sleep(*ms),
             _ => return Err("bad command".into()),
         });
     }
@@ -106,6 +110,10 @@ impl ScriptActor {
                 UCmd::CancelTimer(t) => {
                     o.cancel_timer(*t);
                     out.push(json!({"cancel": t}));
+                }
+                UCmd::Sleep(ms) => {
+                    std::thread::sleep(Duration::from_millis(*ms));
+                    out.push(json!({"sleep_ms": ms}));
                 }
             }
         }
@@ -208,6 +216,12 @@ pub fn udp_worker(args: &[String]) -> i32 {
                 let lo = rng.range(5, 40) as u64;
                 cmds.push(UCmd::SetTimer((t + 1) % 3, lo, lo + 10));
             }
+            if rng.pct(35) {
+                // cancel another timer from within a timeout handler: if that one is due at the
+                // same moment (armed with the same deadline, or both overdue after a slow
+                // handler) it must not fire any more
+                cmds.push(UCmd::CancelTimer((t + 1 + rng.below(2) as u8) % 3));
+            }
             on_fire.insert(t, cmds);
         }
         actors.push((Id::from(SocketAddrV4::new(Ipv4Addr::LOCALHOST, *p)), ScriptActor { index: i, start, on_fire }));
@@ -238,16 +252,32 @@ pub fn udp_worker(args: &[String]) -> i32 {
             _ => {
                 let mut cmds = Vec::new();
                 for _ in 0..rng.below(3) {
-                    cmds.push(match rng.below(6) {
+                    let mut extra: Vec<UCmd> = Vec::new();
+                    let c = match rng.below(6) {
                         0 | 1 => {
                             let lo = rng.range(5, 80) as u64;
                             let hi = if rng.pct(30) { lo } else { lo + rng.range(1, 40) as u64 };
-                            UCmd::SetTimer(rng.below(3) as u8, lo, hi)
+                            let t = rng.below(3) as u8;
+                            if rng.pct(30) {
+                                // a second timer with (nearly) the same deadline, and sometimes a
+                                // slow handler so that both are overdue when the runtime looks
+                                extra.push(UCmd::SetTimer((t + 1) % 3, lo, lo));
+                                if rng.pct(50) {
+                                    extra.push(UCmd::SetTimer(t, lo, lo));
+                                    UCmd::Sleep(lo + rng.range(5, 60) as u64)
+                                } else {
+                                    UCmd::SetTimer(t, lo, hi)
+                                }
+                            } else {
+                                UCmd::SetTimer(t, lo, hi)
+                            }
                         }
                         2 => UCmd::CancelTimer(rng.below(3) as u8),
                         3 => UCmd::Send(id_of(ports[rng.below(n_actors)]), tag()), // actor to actor
                         _ => UCmd::Send(id_of(*rng.pick(&driver_ports)), tag()),
-                    });
+                    };
+                    cmds.extend(extra);
+                    cmds.push(c);
                 }
                 let m = UMsg { tag: tag(), cmds };
                 log(json!({"t": now_us(), "who": "driver", "ev": "send", "from_port": driver_ports[sock_i], "from_id": id_of(driver_ports[sock_i]),
@@ -515,6 +545,6 @@ pub fn run(ctx: &mut Ctx) {
         "random-choice scheduling of the runtime is observed but not judged (not in the statement)".into(),
     ];
     let ctx = &*ctx;
-    ctx.cases("udp", ctx.n(24, 400), 8, scenario_case);
+    ctx.cases("udp", ctx.n(64, 600), 16, scenario_case);
     ctx.cases("id", ctx.n(100000, 3000000), 0, id_case);
 }
